@@ -386,7 +386,7 @@ class FieldValueComponentParsableOptional(FieldValueComponentParsableBase):
 
 @attr.s
 class FieldValueComponentQuotedString(FieldValueComponentKeyValueBase):
-    value = attr.ib(validator=attr.validators.optional(attr.validators.instance_of(six.string_types)))
+    value = attr.ib(validator=attr.validators.instance_of(six.string_types))
 
     @classmethod
     @abc.abstractmethod
